@@ -117,6 +117,9 @@ func main() {
 	if *list {
 		for _, o := range r.Obl {
 			fmt.Printf("%-10s %-70s sites=%d\n", o.Verdict, o.Key, o.Sites)
+			if os.Getenv("GODCHECK_LIST_RULES") != "" {
+				fmt.Printf("    rule: %s\n", o.Rule)
+			}
 		}
 	}
 	os.Exit(finish(r, *verif, seed))
